@@ -331,7 +331,7 @@ sexp sexp_sort_x (sexp ctx, sexp self, sexp_sint_t n, sexp seq,
                                  sexp_vector_data(scratch),
                                  0, len-1, less, key);
       if (!sexp_exceptionp(res))
-        res = scratch;
+        res = vec;
     }
   }
 
